@@ -48,8 +48,8 @@ Section Ctor.
 
   Lemma pgood_mono ws x p : pgood ws p -> pgood (s_add ws x) p.
   Proof.
-    intros (A & B & C). split; auto. split; auto. destruct (f_target p); auto.
-    destruct C as (c1 & c2 & c3 & c4 & c5). repeat split; auto. apply s_has_add_mono; auto.
+    intros (A & B & C). split; auto. split; auto. destruct (f_target p); [|exact C].
+    destruct C as (c1 & c2 & c3 & c4 & c5 & c6). repeat split; auto. apply s_has_add_mono; auto.
   Qed.
 
   (* updating parameter k with a field that is good for the enlarged write set *)
